@@ -11,7 +11,7 @@ from fractions import Fraction
 
 from expr import E, INT, REAL, BOOL, Printer, implies, conj, mk_not, ite, to_real, free_vars
 import ir
-from ir import LV, Assign, If, Loop, Goto, Label, Assert, Assume, Havoc, ArrCopy, MapAssign, CallContract, Comment, Ghost
+from ir import LV, Assign, If, Loop, Goto, Label, Assert, Assume, Havoc, ArrCopy, MapAssign, CallContract, Comment, Ghost, AssumeForall
 from values import *
 
 CTYPE = {REAL: 'real', INT: 'int', BOOL: '_Bool'}
@@ -581,6 +581,8 @@ class Generator(object):
             self.emit_assert(s.e, oid, s.kind, s.label)
         elif isinstance(s, Assume):
             self.emit_assume(s.e, s.why)
+        elif isinstance(s, AssumeForall):
+            self.assume_prop(Quant(s.lo, s.hi, s.body), s.why)
         elif isinstance(s, Havoc):
             self.havoc_names(s.scalars, s.arrays)
         elif isinstance(s, ArrCopy):
@@ -1013,6 +1015,17 @@ class GhostCtx(object):
 
     def assume_fact(self, prop, why):
         self.gen.assume_prop(prop, why)
+
+    def induction(self, lo, hi, P, name):
+        """mathematical induction at one program point: P(lo);  lo <= k < hi-1 and P(k) ==> P(k+1);  hence forall k in [lo,hi): P(k),
+        which is then available as a quantified fact"""
+        g = self.gen
+        sk = g.skolem(0)
+        lo, hi = E.const(lo), E.const(hi)
+        base = '%s/%s/induction.%s' % (g.prop, g.fn.key, name)
+        g.emit_assert(implies(lo < hi, conj_all(P(lo))), '%s.base[%s]' % (base, g.cfgname), 'lemma')
+        g.emit_assert(implies((lo <= sk) & (sk + 1 < hi) & conj_all(P(sk)), conj_all(P(sk + 1))), '%s.step[%s]' % (base, g.cfgname), 'lemma')
+        g.assume_prop(Quant(lo, hi, P), 'induction ' + name)
 
     def use(self, lemma, *args):
         """instance of a pure lemma (proved separately for all reals)"""
